@@ -387,6 +387,20 @@ def _eval_roundtrip(case, out, acc=None, tmpdir=None):
         o = CryptContext()
         if guarded("load(context)", lambda: o.load(ctx)) is None:
             cmp(o, "load(context)")
+        # the exported dict is the caller's: editing it in place (its list values) must not reach into the context,
+        # and an update with the edited (now invalid) export must fail without leaving a trace
+        if not custom:
+            exported = ctx.to_dict()
+            for v in exported.values():
+                if isinstance(v, list):
+                    v.append("no_such_scheme")
+            cmp(ctx, "in-place edit of the dict returned by to_dict()")
+            st, _r = P.call(lambda: ctx.update(**exported))
+            if st != "ok":
+                cmp(ctx, "failed update() with an export edited in place")
+            st, _r = P.call(lambda: ctx.load(exported))
+            if st != "ok":
+                cmp(ctx, "failed load() of an export edited in place")
     elif route == "update":
         model = M.Policy(materialize(cfg)[0])
         for ch in valid_changes(cfg, model):
